@@ -12,6 +12,7 @@ import (
 
 	"github.com/metal-toolbox/audito-maldito/internal/verif/mc"
 	"github.com/metal-toolbox/audito-maldito/internal/verif/sched"
+	"github.com/metal-toolbox/audito-maldito/internal/verif/vsync"
 )
 
 // A concurrent program over the tracker: a sequential prefix, 2-3 threads of
@@ -277,6 +278,12 @@ func runConc(run *mc.Run) int {
 		}
 		return 2
 	}
+	// vacuity guard: a known check-then-act race on the shimmed mutex must show both of its outcomes,
+	// and a known lock-order inversion must show a deadlock, before any verdict is trusted
+	if msg := schedulerCanary(); msg != "" {
+		fmt.Println("scheduler self-test failed:", msg)
+		return 2
+	}
 	cov := mc.Coverage{Level: "model_checking", Exhaustive: true, Extra: map[string]any{}}
 	cov.Rule = "stateless DFS over every interleaving (scheduling points = every real Lock acquisition of the shimmed sync package, thread start/end; every Iterate order) of small concurrent programs on the real sessionTracker; unbounded preemptions with visited-state pruning unless a bound is listed; oracle: outcome (per-session emitted sequence with identities + returned errors, after a probe suffix) must equal the outcome of some sequential merge of the same calls on the real tracker; deadlock = no enabled thread. distinct_nontrivial = complete executions with >=1 preemption"
 	var per []map[string]any
@@ -402,4 +409,45 @@ func racePass() int {
 	b, _ := json.Marshal(map[string]any{"free_running_executions": n})
 	fmt.Println(string(b))
 	return 0
+}
+
+// schedulerCanary explores two tiny programs whose behaviour under all interleavings is known.
+func schedulerCanary() string {
+	type box struct {
+		mu, mu2 vsync.Mutex
+		x       int
+	}
+	incr := func(inst any) {
+		b := inst.(*box)
+		b.mu.Lock()
+		t := b.x
+		b.mu.Unlock()
+		b.mu.Lock()
+		b.x = t + 1
+		b.mu.Unlock()
+	}
+	p := &sched.Program{Name: "canary-lost-update",
+		Setup:   func() any { return &box{} },
+		Threads: []func(any){incr, incr},
+		Finish:  func(inst any) string { return fmt.Sprint(inst.(*box).x) },
+	}
+	st := sched.Explore(p, -1, 10000, nil)
+	if len(st.Outcomes) != 2 || st.OutcomeN["1"] == 0 || st.OutcomeN["2"] == 0 {
+		return fmt.Sprintf("lost-update canary: outcomes %v, want both 1 and 2", st.OutcomeN)
+	}
+	ab := func(inst any) { b := inst.(*box); b.mu.Lock(); b.mu2.Lock(); b.mu2.Unlock(); b.mu.Unlock() }
+	ba := func(inst any) { b := inst.(*box); b.mu2.Lock(); b.mu.Lock(); b.mu.Unlock(); b.mu2.Unlock() }
+	p2 := &sched.Program{Name: "canary-lock-order", Setup: func() any { return &box{} }, Threads: []func(any){ab, ba},
+		Finish: func(any) string { return "done" }}
+	st2 := sched.Explore(p2, -1, 10000, nil)
+	dead := 0
+	for o, n := range st2.OutcomeN {
+		if strings.HasPrefix(o, "DEADLOCK") {
+			dead += n
+		}
+	}
+	if dead == 0 || st2.OutcomeN["done"] == 0 {
+		return fmt.Sprintf("lock-order canary: outcomes %v, want both completion and deadlock", st2.OutcomeN)
+	}
+	return ""
 }
